@@ -6,6 +6,18 @@
 //     workmask bit0 private parsers (all APIs / validation modes)   bit1 parsers sharing one locked grammar pool
 //              bit2 private DOM build/mutate/serialise               bit3 regular expressions with category escapes
 //              bit4 transcoding (XMLString::transcode + named)       bit5 parser create/destroy
+//              bit6 (flag) preload the shared pool WITHOUT validation  bit7 shared locked pool + per-thread schemas
+//              loaded at parse time through xsi:schemaLocation (unique target namespaces, ref=, substitution groups,
+//              import) and dozens of never-seen namespace URIs per document: hammers the synchronised URI pool
+//              bit8 local-code-page transcoding of CJK/Cyrillic text of varying length in a tight loop (overflow-retry
+//              path of ICULCPTranscoder under a UTF-8 locale)
+//
+//   ICU is not built with ThreadSanitizer, so what happens inside a UConverter is invisible to it.  The harness
+//   therefore interposes the ucnv_* entry points that take a converter (the executable is linked with -rdynamic, its
+//   definitions pre-empt libicuuc's for libxerces-c as well): each call performs an *instrumented* plain write to a
+//   shadow word owned by that converter and then forwards to the real function.  A UConverter must not be used by two
+//   threads at once (ICU API contract), so two calls on one converter that are not ordered by the converter's mutex
+//   show up as a ThreadSanitizer data race on the shadow word, with the library frames of both callers.
 //     perturb  0 none; k>0: a wrapper XMLMutexMgr injects seeded yields / short sleeps around lock and unlock
 //
 //   output: one line "T <i> <digest> <ops>" per workload, then "DONE".  The digest covers only values that the
@@ -45,8 +57,74 @@
 #include <cstdlib>
 #include <unistd.h>
 #include <sched.h>
+#include <dlfcn.h>
+#include <atomic>
+#include <map>
+#include <xercesc/sax/EntityResolver.hpp>
+#include <unicode/ucnv.h>
 
 using namespace xh;
+
+// ------------------------------------------------------------------------------------------------------------------
+// ICU converter sentinel (see the header comment)
+// ------------------------------------------------------------------------------------------------------------------
+namespace sentinel {
+static const unsigned kSlots = 1u << 14;
+static std::atomic<const void*> gKey[kSlots];      // open addressing, keys are never removed (converter addresses may be
+static unsigned long gShadow[kSlots];              // reused after ucnv_close: then free()/malloc() order the accesses)
+static inline void touch(const void* cnv) {
+    if (!cnv) return;
+    unsigned h = (unsigned)(((uintptr_t)cnv >> 4) * 2654435761u) & (kSlots - 1);
+    for (unsigned n = 0; n < kSlots; n++, h = (h + 1) & (kSlots - 1)) {
+        const void* k = gKey[h].load(std::memory_order_relaxed);
+        if (k == cnv) break;
+        if (k == 0) {
+            const void* expect = 0;
+            if (gKey[h].compare_exchange_strong(expect, cnv, std::memory_order_relaxed) || expect == cnv) break;
+        }
+    }
+    gShadow[h]++;                                  // the instrumented, deliberately non-atomic write
+}
+template <class F> static F real(const char* name) {
+    void* p = dlsym(RTLD_NEXT, name);
+    if (!p) { fprintf(stderr, "sentinel: cannot resolve %s\n", name); abort(); }
+    return (F)p;
+}
+}
+#define XH_STR2(x) #x
+#define XH_STR(x) XH_STR2(x)
+extern "C" {
+U_CAPI int32_t U_EXPORT2 ucnv_fromUChars(UConverter* cnv, char* dest, int32_t destCapacity, const UChar* src, int32_t srcLength, UErrorCode* pErrorCode) {
+    typedef int32_t (*F)(UConverter*, char*, int32_t, const UChar*, int32_t, UErrorCode*);
+    static F f = sentinel::real<F>(XH_STR(ucnv_fromUChars));
+    sentinel::touch(cnv);
+    return f(cnv, dest, destCapacity, src, srcLength, pErrorCode);
+}
+U_CAPI int32_t U_EXPORT2 ucnv_toUChars(UConverter* cnv, UChar* dest, int32_t destCapacity, const char* src, int32_t srcLength, UErrorCode* pErrorCode) {
+    typedef int32_t (*F)(UConverter*, UChar*, int32_t, const char*, int32_t, UErrorCode*);
+    static F f = sentinel::real<F>(XH_STR(ucnv_toUChars));
+    sentinel::touch(cnv);
+    return f(cnv, dest, destCapacity, src, srcLength, pErrorCode);
+}
+U_CAPI void U_EXPORT2 ucnv_fromUnicode(UConverter* cnv, char** target, const char* targetLimit, const UChar** source, const UChar* sourceLimit, int32_t* offsets, UBool flush, UErrorCode* err) {
+    typedef void (*F)(UConverter*, char**, const char*, const UChar**, const UChar*, int32_t*, UBool, UErrorCode*);
+    static F f = sentinel::real<F>(XH_STR(ucnv_fromUnicode));
+    sentinel::touch(cnv);
+    f(cnv, target, targetLimit, source, sourceLimit, offsets, flush, err);
+}
+U_CAPI void U_EXPORT2 ucnv_toUnicode(UConverter* cnv, UChar** target, const UChar* targetLimit, const char** source, const char* sourceLimit, int32_t* offsets, UBool flush, UErrorCode* err) {
+    typedef void (*F)(UConverter*, UChar**, const UChar*, const char**, const char*, int32_t*, UBool, UErrorCode*);
+    static F f = sentinel::real<F>(XH_STR(ucnv_toUnicode));
+    sentinel::touch(cnv);
+    f(cnv, target, targetLimit, source, sourceLimit, offsets, flush, err);
+}
+U_CAPI void U_EXPORT2 ucnv_setFromUCallBack(UConverter* cnv, UConverterFromUCallback newAction, const void* newContext, UConverterFromUCallback* oldAction, const void** oldContext, UErrorCode* err) {
+    typedef void (*F)(UConverter*, UConverterFromUCallback, const void*, UConverterFromUCallback*, const void**, UErrorCode*);
+    static F f = sentinel::real<F>(XH_STR(ucnv_setFromUCallBack));
+    sentinel::touch(cnv);
+    f(cnv, newAction, newContext, oldAction, oldContext, err);
+}
+}
 
 // ------------------------------------------------------------------------------------------------------------------
 // deterministic PRNG + digest
@@ -63,6 +141,8 @@ struct Digest {
     uint64_t h = 1469598103934665603ull;
     unsigned long ops = 0;
     void add(const std::string& s) {
+        static const bool dump = getenv("XH_C17_DUMP") != 0;     // diagnosis aid: what goes into the digests
+        if (dump) fprintf(stderr, "DIGEST+ %.6000s\n", s.c_str());
         for (unsigned char c : s) { h ^= c; h *= 1099511628211ull; }
         h ^= 0xFF; h *= 1099511628211ull;
     }
@@ -414,7 +494,10 @@ static void wDom(Digest& d, Rng& r) {
         DOMImplementation* impl = DOMImplementationRegistry::getDOMImplementation(r.coin() ? LS : CORE);
         if (!impl) { d.add("!noimpl"); return; }
         // an owner-less document type node: allocated from the library's shared sDocument under sDocumentMutex
-        DOMDocumentType* dt = impl->createDocumentType(X("root").c_str(), X("-//C17//" + word(r)).c_str(), X("c17.dtd").c_str());
+        // fresh names every call: a name that is already in sDocument's string pool would only be looked up
+        DOMDocumentType* dt = impl->createDocumentType(X("root_" + std::to_string(r.below(1000000000)) + "_" + std::to_string(r.below(1000000000))).c_str(),
+                                                       X("-//C17//" + word(r) + std::to_string(r.below(1000000000))).c_str(),
+                                                       X("c17_" + std::to_string(r.below(1000000000)) + ".dtd").c_str());
         d.addX(dt->getPublicId());
         DOMDocument* doc = impl->createDocument(X("urn:dom:" + std::to_string(r.below(1000))).c_str(), X("p:root").c_str(), dt);
         DOMElement* root = doc->getDocumentElement();
@@ -451,7 +534,8 @@ static void wDom(Digest& d, Rng& r) {
         d.add(serialise(ls, doc, r.coin()));
         // a second owner-less doctype that is never adopted by a document (create + release under sDocumentMutex).  NOTE: cloneNode() of an owner-less doctype dereferences a null owner document in
         // DOMNamedNodeMapImpl::cloneMap even single-threaded; that is not a concurrency matter and is left out here.
-        DOMDocumentType* dt2 = impl->createDocumentType(X("other").c_str(), 0, X("o.dtd").c_str());
+        DOMDocumentType* dt2 = impl->createDocumentType(X("other_" + std::to_string(r.below(1000000000)) + "_" + std::to_string(r.below(1000000000))).c_str(), 0,
+                                                        X("o" + std::to_string(r.below(1000000000)) + ".dtd").c_str());
         d.addX(dt2->getPublicId()); d.addX(dt2->getSystemId()); d.addX(dt2->getInternalSubset());
         dt2->release();
         doc->release();
@@ -545,10 +629,131 @@ static void wCreateDestroy(Digest& d, Rng& r) {
     });
 }
 
+// bit7: parsers sharing the locked pool; every document pulls in its own schemas AT PARSE TIME through
+// xsi:schemaLocation (resolved from memory by an EntityResolver): unique target namespaces that are not in the constant
+// part of the pool, children declared by ref= (looked up at top-level scope: XMLSynchronizedStringPool::getId of the
+// grammar's target namespace), a substitution group, an import -- and dozens of never-seen namespace URIs per document,
+// so that addOrFind / getId / exists / getValueForId run concurrently with growth and rehashing of the shared pool.
+class MemResolver : public EntityResolver {
+public:
+    std::string mainXsd, impXsd;
+    InputSource* resolveEntity(const XMLCh* const, const XMLCh* const systemId) override {
+        std::string sysid = narrow(systemId);
+        const std::string* doc = 0;
+        if (sysid.find("main.xsd") != std::string::npos) doc = &mainXsd;
+        else if (sysid.find("imp.xsd") != std::string::npos) doc = &impXsd;
+        if (!doc) return 0;
+        return new MemBufInputSource((const XMLByte*)doc->data(), doc->size(), systemId, false);
+    }
+};
+
+static void wPoolGrow(Digest& d, Rng& r, XMLGrammarPool* pool, const std::string& tag0) {
+    d.ops++;
+    std::string tag = tag0;
+    for (char& c : tag) if (c == ':') c = '.';
+    const std::string M = "urn:u:" + tag + ":main", I = "urn:u:" + tag + ":imp";
+    MemResolver res;
+    res.mainXsd =
+        "<xs:schema xmlns:xs=\"http://www.w3.org/2001/XMLSchema\" targetNamespace=\"" + M + "\" xmlns:m=\"" + M + "\" xmlns:i=\"" + I +
+        "\" elementFormDefault=\"qualified\">\n"
+        " <xs:import namespace=\"" + I + "\" schemaLocation=\"mem." + tag + ".imp.xsd\"/>\n"
+        " <xs:element name=\"root\"><xs:complexType><xs:sequence>\n"
+        "  <xs:element ref=\"m:item\" maxOccurs=\"unbounded\"/>\n"
+        "  <xs:element ref=\"i:ext\" minOccurs=\"0\" maxOccurs=\"unbounded\"/>\n"
+        " </xs:sequence><xs:attribute name=\"a\" type=\"xs:string\"/></xs:complexType></xs:element>\n"
+        " <xs:element name=\"item\" type=\"m:itemT\"/>\n"
+        " <xs:element name=\"special\" substitutionGroup=\"m:item\" type=\"m:specialT\"/>\n"
+        " <xs:complexType name=\"itemT\"><xs:sequence><xs:element ref=\"m:leaf\" minOccurs=\"0\" maxOccurs=\"3\"/></xs:sequence>"
+        "<xs:attribute name=\"k\" type=\"xs:NMTOKEN\"/></xs:complexType>\n"
+        " <xs:complexType name=\"specialT\"><xs:complexContent><xs:extension base=\"m:itemT\"><xs:attribute name=\"s\" type=\"xs:int\"/>"
+        "</xs:extension></xs:complexContent></xs:complexType>\n"
+        " <xs:element name=\"leaf\" type=\"xs:token\"/>\n"
+        "</xs:schema>\n";
+    res.impXsd =
+        "<xs:schema xmlns:xs=\"http://www.w3.org/2001/XMLSchema\" targetNamespace=\"" + I + "\" elementFormDefault=\"qualified\">\n"
+        " <xs:element name=\"ext\" type=\"xs:string\"/>\n</xs:schema>\n";
+    int kind = r.below(4) == 0 ? 1 : 0;
+    std::string doc = "<m:root xmlns:m=\"" + M + "\" xmlns:i=\"" + I + "\" xmlns:xsi=\"http://www.w3.org/2001/XMLSchema-instance\" "
+                      "xsi:schemaLocation=\"" + M + " mem." + tag + ".main.xsd\" a=\"" + word(r) + "\">";
+    unsigned n = 2 + r.below(4), uri = 0;
+    for (unsigned i = 0; i < n; i++) {
+        bool special = r.coin();
+        doc += special ? "<m:special s=\"" + std::string(kind == 1 && r.coin() ? "x" : "3") + "\"" : std::string("<m:item");
+        doc += " k=\"t" + std::to_string(i) + "\"";
+        unsigned nd = 8 + r.below(16);
+        for (unsigned k = 0; k < nd; k++, uri++) doc += " xmlns:n" + std::to_string(k) + "=\"urn:u:" + tag + ":x:" + std::to_string(uri) + "\"";
+        doc += ">";
+        unsigned nl = r.below(kind == 1 ? 6 : 4);
+        for (unsigned k = 0; k < nl; k++) doc += "<m:leaf>  " + word(r) + "   " + word(r) + " </m:leaf>";
+        doc += special ? "</m:special>" : "</m:item>";
+    }
+    if (r.coin()) doc += "<i:ext>" + word(r) + "</i:ext>";
+    if (kind == 1 && r.coin()) doc += "<m:leaf>misplaced</m:leaf>";
+    doc += "</m:root>\n";
+    MemBufInputSource src((const XMLByte*)doc.data(), doc.size(), "c17-grow-doc", false);
+    bool sg = r.coin();
+    d.add(sg ? "grow-sg" : "grow-ig");
+    wrapExceptions(d, [&]() {
+        SAX2XMLReader* p = XMLReaderFactory::createXMLReader(XMLPlatformUtils::fgMemoryManager, pool);
+        H2 h;
+        p->setContentHandler(&h); p->setErrorHandler(&h); p->setEntityResolver(&res);
+        if (sg) p->setProperty(XMLUni::fgXercesScannerName, (void*)XMLUni::fgSGXMLScanner);
+        p->setFeature(XMLUni::fgSAX2CoreValidation, true);
+        p->setFeature(XMLUni::fgXercesDynamic, false);
+        p->setFeature(XMLUni::fgSAX2CoreNameSpaces, true);
+        p->setFeature(XMLUni::fgXercesSchema, true);
+        p->setFeature(XMLUni::fgXercesSchemaFullChecking, true);
+        p->setFeature(XMLUni::fgXercesUseCachedGrammarInParse, true);
+        try { p->parse(src); } catch (const SAXParseException& e) { h.s.err("X", e); }
+        d.add(h.s.out);
+        d.add(std::to_string((int)p->getErrorCount()));
+        delete p;
+    });
+}
+
+// bit8: XMLString::transcode both ways on text whose local-code-page form is much longer than its UTF-16 form (CJK,
+// Cyrillic, supplementary characters; under a UTF-8 locale 3-4 bytes per character): the first conversion into the
+// 1.25 x buffer overflows and the retry path of ICULCPTranscoder::transcode is taken, on the one process-wide converter
+static void wLcp(Digest& d, Rng& r) {
+    static const unsigned lens[] = {1, 2, 3, 4, 5, 8, 13, 21, 40, 100, 333, 1500};
+    d.ops++;
+    wrapExceptions(d, [&]() {
+        for (int it = 0; it < 40; it++) {
+            unsigned L = lens[r.below(sizeof lens / sizeof lens[0])];
+            unsigned style = r.below(4);
+            std::basic_string<XMLCh> u;
+            for (unsigned i = 0; i < L; i++) {
+                switch (style == 3 ? r.below(4) : style) {
+                case 0: u.push_back((XMLCh)(0x4E00 + r.below(0x5000))); break;                 // CJK: 3 bytes in UTF-8
+                case 1: u.push_back((XMLCh)(0x0410 + r.below(0x40))); break;                   // Cyrillic: 2 bytes
+                case 2: { unsigned c = 0x20000 + r.below(0xA000) - 0x10000;                    // supplementary: 4 bytes
+                          u.push_back((XMLCh)(0xD800 + (c >> 10))); u.push_back((XMLCh)(0xDC00 + (c & 0x3FF))); break; }
+                default: u.push_back((XMLCh)(0x21 + r.below(0x5E))); break;
+                }
+            }
+            char* c = XMLString::transcode(u.c_str());
+            if (!c) { d.add("!null8"); continue; }
+            size_t n = strlen(c);
+            d.add(std::to_string(n));
+            d.add(showHex((const unsigned char*)c, n, 2));
+            XMLCh* back = XMLString::transcode(c);
+            if (!back) d.add("!null16");
+            else {
+                d.add(showHex(back, XMLString::stringLen(back), 4));
+                XMLString::release(&back);
+            }
+            XMLCh fixed[64];
+            bool ok = XMLString::transcode(c, fixed, 63);
+            d.add(ok ? showHex(fixed, XMLString::stringLen(fixed), 4) : "!fixed");
+            XMLString::release(&c);
+        }
+    });
+}
+
 static void workload(int idx, uint64_t seed, const Shared& sh, Digest& d) {
     Rng r(seed * 1000003ull + (uint64_t)idx * 7919ull + 17);
     std::vector<int> enabled;
-    for (int b = 0; b < 6; b++) if (sh.mask & (1u << b)) enabled.push_back(b);
+    for (int b = 0; b < 9; b++) if (b != 6 && (sh.mask & (1u << b))) enabled.push_back(b);
     if (enabled.empty()) return;
     // the first operation of thread i is workload (i mod #enabled): all facilities see first-use contention
     for (int it = 0; it < sh.iters; it++) {
@@ -560,7 +765,9 @@ static void workload(int idx, uint64_t seed, const Shared& sh, Digest& d) {
         case 2: wDom(d, r); break;
         case 3: wRegex(d, r); break;
         case 4: wTranscode(d, r); break;
-        default: wCreateDestroy(d, r); break;
+        case 5: wCreateDestroy(d, r); break;
+        case 7: wPoolGrow(d, r, sh.pool, tag); break;
+        default: wLcp(d, r); break;
         }
     }
 }
@@ -591,7 +798,7 @@ int main(int argc, char** argv) {
     PerturbMutexMgr* pm = 0;
     if (gPerturbLevel > 0 && mode == "conc") { pm = new PerturbMutexMgr(origMgr); XMLPlatformUtils::fgMutexMgr = pm; }
 
-    if (sh.mask & 2u) {
+    if (sh.mask & 0x82u) {
         // the shared pool: one schema grammar is cached, then the pool is locked; from then on it is read-only and
         // hands out a synchronised URI string pool
         sh.pool = new XMLGrammarPoolImpl(XMLPlatformUtils::fgMemoryManager);
